@@ -332,6 +332,8 @@ Section Conf.
       let _ := (ATTRS, OBJS) in   (* used by codecs not dispatched yet: keeps the signature stable *)
       let n := t_name d in
       if String.eqb n "kmip.RequestBatchItem" then conf_request_item st d tag fs
+      else if String.eqb n "kmip.ResponseBatchItem" then conf_response_item st d tag fs
+      else if String.eqb n "kmip.Attribute" then conf_attribute st d tag fs
       else None.
   End ConfCustoms.
 
